@@ -342,3 +342,69 @@ def alphabets_fit_matrix(ctx, rel, qual, rule, pairs=(("1", "seq1"), ("2", "seq2
     ctx.ob(rule, rel, qual, "both sequence alphabets are checked against the matrix before the tables are filled", not missing,
            f"after the argument checks it is not established that alphabet {missing[0] if missing else ''} of the matrix extends the alphabet of its "
            "sequence (e.g. `not (a or b)` refuses only when BOTH fail): symbol codes then index the score matrix out of bounds", f.lineno)
+
+
+def raising_functions(ctx, rels):
+    """names of the functions of the given modules that can raise (a `raise` in their own body or, transitively, in a function of
+    these modules they call)"""
+    bodies = {}
+    for rel in rels:
+        for q, f in ctx.src(rel).funcs.items():
+            bodies.setdefault(q.split(".")[-1], []).append(f)
+    raising = {n for n, fs in bodies.items() if any(isinstance(x, ast.Raise) for f in fs for x in ast.walk(f))}
+    changed = True
+    while changed:
+        changed = False
+        for n, fs in bodies.items():
+            if n in raising:
+                continue
+            for f in fs:
+                for c in ast.walk(f):
+                    if isinstance(c, ast.Call) and (call_name(c) or "").split(".")[-1] in raising:
+                        raising.add(n)
+                        changed = True
+                        break
+    return raising
+
+
+def validation_before_mutation(ctx, rel, rule, raising, method_names=("set_structure", "set_header", "__setitem__"), min_methods=1):
+    """a setter must not leave a half-written object behind when it refuses its input: every call that can refuse (a function
+    known to raise) is evaluated before the first statement that changes the object's own state in place (`del self.x[..]`,
+    `self.x += ..`, `self.x[..] = ..`, `self.x.clear()`).  (`self.x = f(..)` alone is atomic: the right side is evaluated first.)"""
+    from .effects import MUTATING_METHODS
+    s = ctx.src(rel)
+    n = 0
+    for q, f in s.funcs.items():
+        if "." not in q or q.split(".")[-1] not in method_names:
+            continue
+        stmts_ = list(f.body)
+
+        def mutates(st):
+            for x in ast.walk(st):
+                if isinstance(x, ast.Delete) and any(isinstance(t, ast.Subscript) and ast.unparse(t).startswith("self.") for t in x.targets):
+                    return True
+                if isinstance(x, ast.AugAssign) and ast.unparse(x.target).startswith("self."):
+                    return "aug"
+                if isinstance(x, ast.Assign) and any(isinstance(t, ast.Subscript) and ast.unparse(t).startswith("self.") for t in x.targets):
+                    return True
+                if isinstance(x, ast.Expr) and isinstance(x.value, ast.Call) and isinstance(x.value.func, ast.Attribute) \
+                        and x.value.func.attr in MUTATING_METHODS and ast.unparse(x.value.func.value).startswith("self."):
+                    return True
+            return False
+
+        def may_refuse(node):
+            return [c for c in ast.walk(node) if isinstance(c, ast.Call) and (call_name(c) or "").split(".")[-1] in raising]
+        first = next((k for k, st in enumerate(stmts_) if mutates(st)), None)
+        calls_ = [c for st in stmts_ for c in may_refuse(st)]
+        if first is None or not calls_:
+            continue
+        n += 1
+        # calls in statements after the first mutation; an augmented assignment evaluates its own right side before it changes the target
+        late = [c for st in stmts_[first + 1:] for c in may_refuse(st)]
+        if mutates(stmts_[first]) is True:
+            late += [c for c in may_refuse(stmts_[first]) if not isinstance(stmts_[first], ast.Assign)]
+        ctx.ob(rule, rel, q, f"{len(calls_)} refusing call(s), first in-place change at statement {first + 1}", not late,
+               (f"`{ast.unparse(late[0])[:60]}` can refuse its input, but the object was already changed in place at line "
+                f"{stmts_[first].lineno}: after the error the previous content is gone (a damaged file is written later)" if late else ""), f.lineno)
+    ctx.floor(f"{rule}:{rel}", n, 0)
+    return n
